@@ -30,7 +30,7 @@ Sig(r) ==
          \o "|noss=" \o TF(K_NoSetstate(r.scn))
          \o "|nods=" \o TF(\E c \in OptNodes(r.scn) : ~r.scn.g[c].ds)
          \o "|sib=" \o MaxSib(r.scn) \o "|free=" \o TF(K_Free(r.scn)) \o "|stale=" \o TF(K_Stale(r.scn))
-         \o "|patched=" \o TF(AnyPatch(r.scn)) \o "|injected=" \o TF(AnyInjected(r.scn)) \o "|par=" \o TF(r.scn.par) \o "|deep=" \o TF(K_DeepPatch(r.scn))
+         \o "|patched=" \o TF(AnyPatch(r.scn)) \o "|injected=" \o TF(AnyInjected(r.scn)) \o "|par=" \o TF(r.scn.par) \o "|deep=" \o TF(K_DeepPatch(r.scn)) \o "|kwonly=" \o TF(K_KwOnly(r.scn))
 
 Chk(name, ok) == ok \/ PrintT(<<"FAIL", Recs[i].id, name, Sig(Recs[i])>>)
 JInv == CASE Which = "C13" ->
